@@ -154,6 +154,14 @@ func (c *fctx) forStmt(x *ast.ForStmt, rest []ast.Stmt, k *cont, n int) (string,
 	for o, nm := range c.names {
 		fuelExpr = strings.ReplaceAll(fuelExpr, "${"+o.Name()+"}", nm)
 	}
+	if strings.Contains(fuelExpr, "${") {
+		// the hint names a variable that is not there (renamed in the source): derive the fuel from
+		// the loop condition where it has one of the shapes `len(xs) > 0`, `x == recv.field`
+		fuelExpr = c.fuelFromCond(x.Cond)
+		if fuelExpr == "" {
+			return "", fmt.Errorf("the fuel hint for loop %d of %s names an unknown variable", idx, c.cfg.goName)
+		}
+	}
 
 	// ---- the auxiliary definition
 	saved := c.snapshot()
@@ -691,4 +699,33 @@ func (g *golite) translate(cfg *fnCfg) (string, error) {
 	}
 	fmt.Fprintf(&out, "def %s %s%s : Res (%s) := do\n%s%s", cfg.lean, sigma, strings.Join(binders, " "), rt, namedInit.String(), body)
 	return out.String(), nil
+}
+
+// fuelFromCond: a fuel bound read off the loop condition — `len(xs) > 0` / `0 < len(xs)`: the
+// length of xs plus one; a comparison with a field of the decoder (`field == dec.pendingField`): the
+// length of the decoder's buffer plus two.
+func (c *fctx) fuelFromCond(cond ast.Expr) string {
+	be, ok := stripParens(cond).(*ast.BinaryExpr)
+	if !ok {
+		return ""
+	}
+	for _, side := range []ast.Expr{be.X, be.Y} {
+		if ce, ok := stripParens(side).(*ast.CallExpr); ok && len(ce.Args) == 1 {
+			if id, ok := ce.Fun.(*ast.Ident); ok && id.Name == "len" {
+				if o := c.rootObj(ce.Args[0]); o != nil && c.names[o] != "" {
+					if t, err := c.g.ltypeOf(o.Type()); err == nil && t.k == kList {
+						return "(" + c.names[o] + ".length + 1)"
+					}
+				}
+			}
+		}
+		if se, ok := stripParens(side).(*ast.SelectorExpr); ok {
+			if o := c.rootObj(se.X); o != nil && o == c.recv {
+				if t, err := c.g.ltypeOf(o.Type()); err == nil && t.lean == "Pico.Dec.Dec" {
+					return "(" + c.names[o] + ".cur.buffer.length + 2)"
+				}
+			}
+		}
+	}
+	return ""
 }
